@@ -185,7 +185,7 @@ Lemma fetch_vals_facts E w i it rd pv r : vcs E w -> valid_pair E i it ->
   same_frame w w0 /\ w_ps w0 = w_ps w /\ vcs E w0 /\
   item_step rd pv r it (snd (fetch_vals E w i it rd r)) = item_step rd pv r it (src_vals E it).
 Proof.
-  intros Hv Hval. unfold fetch_vals, src_vals. destruct (i_tr it) as [k v|m| |d| ] eqn:Et;
+  intros Hv Hval. unfold fetch_vals, src_vals. destruct (i_tr it) as [k v|m| |d| |l|l|l|k v|p0] eqn:Et;
     try (simpl; split; [apply same_frame_refl|]; split; [reflexivity|]; split; [exact Hv | reflexivity]).
   destruct (wants_values rd r it) eqn:Ew.
   - unfold get_values. destruct (w_vc w i) as [v|] eqn:Ec.
